@@ -622,3 +622,200 @@ Qed.
 Lemma checker_sound_thm (g : graph) (W : wf g) (shown : list nat) : forall stream,
   stream_ok g (ancsets g) shown stream = true -> stream_holds g shown stream.
 Proof. intros stream. now apply stream_ok_sound. Qed.
+
+(** * meaning of the adapter checks (TopoGroupedGraph, reverse_graph) *)
+Lemma ekind_eqb_spec a b : ekind_eqb a b = true <-> a = b.
+Proof. destruct a, b; simpl; split; congruence. Qed.
+
+Lemma edges_eqb_spec (l1 l2 : list edge) :
+  list_eqb (fun e e' => (fst e =? fst e') && ekind_eqb (snd e) (snd e')) l1 l2 = true -> l1 = l2.
+Proof.
+  revert l2. induction l1 as [|[a k] l1 IH]; intros [|[a' k'] l2]; simpl; try discriminate; [reflexivity|].
+  rewrite !andb_true_iff, Nat.eqb_eq, ekind_eqb_spec. intros [[-> ->] H]. f_equal. now apply IH.
+Qed.
+
+Lemma node_eqb0_spec a b : node_eqb0 a b = true -> a = b.
+Proof.
+  destruct a as [x es], b as [y fs]. unfold node_eqb0. simpl.
+  rewrite andb_true_iff, Nat.eqb_eq. intros [-> H]. f_equal. now apply edges_eqb_spec.
+Qed.
+
+(** index of the first occurrence *)
+Fixpoint posn (l : list nat) (x : nat) : nat :=
+  match l with [] => 0 | y :: r => if y =? x then 0 else S (posn r x) end.
+
+Lemma posn_app_notin l1 l2 x : ~ In x l1 -> posn (l1 ++ l2) x = length l1 + posn l2 x.
+Proof.
+  induction l1 as [|y l1 IH]; simpl; intros H; [reflexivity|].
+  destruct (Nat.eqb_spec y x) as [->|N]; [exfalso; apply H; now left|].
+  rewrite IH; [reflexivity|]. intros C. apply H. now right.
+Qed.
+
+Lemma posn_here l x : posn (x :: l) x = 0.
+Proof. simpl. now rewrite Nat.eqb_refl. Qed.
+
+Lemma order_respects_spec : forall l seen, order_respects_edges seen l = true ->
+  forall l1 x es l2, l = l1 ++ (x, es) :: l2 ->
+    ~ In x seen /\ ~ In x (map fst l1) /\
+    forall e, In e es -> snd e <> Missing -> ~ In (fst e) seen /\ ~ In (fst e) (map fst l1).
+Proof.
+  induction l as [|[y fs] r IH]; intros seen H l1 x es l2 E.
+  - destruct l1; discriminate.
+  - simpl in H. rewrite !andb_true_iff, negb_true_iff, forallb_forall in H.
+    destruct H as [[H1 H2] H3]. apply memn_false in H1.
+    destruct l1 as [|nd l1]; simpl in E.
+    + injection E as -> -> ->. split; [assumption|]. split; [intros []|].
+      intros e He Nm. specialize (H2 e He). apply orb_true_iff in H2. destruct H2 as [H2|H2].
+      * apply is_missing_spec in H2. contradiction.
+      * apply negb_true_iff, memn_false in H2. split; [assumption|intros []].
+    + injection E as <- E. destruct (IH (y :: seen) H3 l1 x es l2 E) as (A & B & C).
+      split; [intros C'; apply A; now right|]. split.
+      * simpl. intros [E'|C']; [apply A; left; exact E'|contradiction].
+      * intros e He Nm. destruct (C e He Nm) as [C1 C2]. split; [intros C'; apply C1; now right|].
+        simpl. intros [E'|C']; [apply C1; left; exact E'|contradiction].
+Qed.
+
+Lemma edges_at_nodup (l : stream_t) x es :
+  NoDup (map fst l) -> In (x, es) l -> edges_at l x = es.
+Proof.
+  unfold edges_at. induction l as [|[y fs] r IH]; intros ND Hin; [contradiction|].
+  simpl. simpl in ND. inversion ND as [|? ? Hn ND']; subst.
+  destruct (Nat.eqb_spec y x) as [->|N].
+  - destruct Hin as [E|Hin]; [now injection E|]. exfalso. apply Hn.
+    apply in_map_iff. now exists (x, es).
+  - destruct Hin as [E|Hin]; [injection E; congruence|]. now apply IH.
+Qed.
+
+Section Adapters.
+  Variable g : graph.
+  Hypothesis W : wf g.
+  Variable shown : list nat.
+  Variables stream topo : stream_t.
+  Hypothesis SH : stream_holds g shown stream.
+  Hypothesis TO : topo_ok stream topo = true.
+
+  Lemma sdesc_p_nodup l : sdesc_p l -> NoDup l.
+  Proof.
+    induction l as [|x r IH]; simpl; [constructor|]. intros [B D]. constructor; [|now apply IH].
+    intros C. apply B in C. lia.
+  Qed.
+
+  Lemma topo_parts :
+    (forall nd, In nd topo -> In nd stream) /\ NoDup (map fst topo) /\
+    (forall x, In x (map fst stream) -> In x (map fst topo)).
+  Proof.
+    unfold topo_ok in TO. rewrite !andb_true_iff, Nat.eqb_eq, forallb_forall in TO.
+    destruct TO as [[L Hin] Ho].
+    assert (Hsub : forall nd, In nd topo -> In nd stream).
+    { intros nd Hnd. specialize (Hin nd Hnd). apply existsb_exists in Hin.
+      destruct Hin as (nd' & Hnd' & E). apply node_eqb0_spec in E. now subst. }
+    assert (ND : NoDup (map fst topo)).
+    { assert (G : forall l seen, order_respects_edges seen l = true -> NoDup (map fst l)).
+      { induction l as [|[y fs] r IH]; intros seen H; [constructor|].
+        simpl. constructor; [|simpl in H; rewrite !andb_true_iff in H; now apply (IH (y :: seen))].
+        intros C. apply in_map_iff in C. destruct C as ([y' fs'] & E & Hy). simpl in E. subst y'.
+        destruct (in_split _ _ Hy) as (r1 & r2 & Er).
+        pose proof (order_respects_spec ((y, fs) :: r) seen H ((y, fs) :: r1) y fs' r2) as P.
+        simpl in P. rewrite Er in P. destruct (P eq_refl) as (_ & P2 & _). apply P2. now left. }
+      now apply (G topo []). }
+    split; [assumption|]. split; [assumption|].
+    apply NoDup_length_incl; [assumption|rewrite !map_length; lia|].
+    intros x Hx. apply in_map_iff in Hx. destruct Hx as (nd & <- & Hnd). apply in_map. now apply Hsub.
+  Qed.
+
+  Lemma edges_at_stream x es : In (x, es) stream -> edges_at stream x = es.
+  Proof.
+    destruct SH as (SD & _). apply sdesc_p_nodup in SD. now apply edges_at_nodup.
+  Qed.
+
+  (** in the re-ordered stream a shown commit still comes before each of its shown ancestors *)
+  Theorem topo_before_ancestors : forall x y, In x shown -> In y shown -> x < length g ->
+    anc g y x -> y <> x -> posn (map fst topo) x < posn (map fst topo) y.
+  Proof.
+    destruct topo_parts as (Hsub & ND & Hall).
+    destruct SH as (SD & Hsh & Hnode & Hes & Hanc).
+    assert (Step : forall x e, In x (map fst topo) -> In e (edges_at stream x) -> snd e <> Missing ->
+              In (fst e) (map fst topo) /\ posn (map fst topo) x < posn (map fst topo) (fst e)).
+    { intros x e Hx He Nm. apply in_map_iff in Hx. destruct Hx as ([x' es] & E & Hnd). simpl in E. subst x'.
+      pose proof (Hsub _ Hnd) as Hst. rewrite (edges_at_stream x es Hst) in He.
+      pose proof (Hes x es e Hst He) as Se.
+      assert (Sa : In (fst e) shown) by (apply (esound_shown g shown Direct x e); [discriminate|assumption|assumption]).
+      pose proof (esound_anc g W shown Direct x e Se) as Lt. apply (sanc_lt g _ _ W) in Lt.
+      assert (Lx : x < length g).
+      { destruct (Nat.lt_ge_cases x (length g)) as [L|L]; [assumption|exfalso].
+        destruct Se as [(_ & _ & H)|[(_ & _ & p & H & _)|(_ & _ & H & _)]].
+        - apply parents_in in H. lia.
+        - apply parents_in in H. lia.
+        - destruct H as [H|(p & H & _)]; apply parents_in in H; lia. }
+      assert (Ha : In (fst e) (map fst topo)) by (apply Hall, Hnode; [assumption|lia]).
+      split; [assumption|].
+      destruct (in_split _ _ Hnd) as (l1 & l2 & El).
+      unfold topo_ok in TO. rewrite !andb_true_iff in TO. destruct TO as [_ Ho].
+      destruct (order_respects_spec topo [] Ho l1 x es l2 El) as (_ & Nx & Ne).
+      destruct (Ne e He Nm) as [_ Na].
+      rewrite El, map_app. simpl. rewrite !posn_app_notin by assumption. rewrite posn_here.
+      simpl. destruct (Nat.eqb_spec x (fst e)); [lia|lia]. }
+    assert (R : forall x y, sreach stream x y -> In x (map fst topo) -> x <> y ->
+                posn (map fst topo) x < posn (map fst topo) y).
+    { intros x y H. induction H as [x|x e y He Nm Hr IH]; intros Hx N; [congruence|].
+      destruct (Step x e Hx He Nm) as [Ha Lt].
+      destruct (Nat.eq_dec (fst e) y) as [<-|N']; [assumption|]. specialize (IH Ha N'). lia. }
+    intros x y Sx Sy Lx Ha N. apply R.
+    - now apply Hanc.
+    - apply Hall, Hnode; assumption.
+    - congruence.
+  Qed.
+End Adapters.
+
+Lemma triple_eqb_spec a b : triple_eqb a b = true <-> a = b.
+Proof.
+  destruct a as [[a1 a2] ak], b as [[b1 b2] bk]. unfold triple_eqb. simpl.
+  rewrite !andb_true_iff, !Nat.eqb_eq, ekind_eqb_spec. split; [intros [[-> ->] ->]; reflexivity|].
+  intros E. injection E as -> -> ->. tauto.
+Qed.
+
+(** reverse_graph: reversed node order, and an edge x -> y of type k between two nodes of the
+    stream becomes exactly an edge y -> x of type k *)
+Lemma reverse_ok_sound stream rv : reverse_ok stream rv = true ->
+  map fst rv = rev (map fst stream) /\
+  forall x y k, (In (x, y, k) (edge_triples stream) /\ In y (map fst stream)) <->
+                In (y, x, k) (edge_triples rv).
+Proof.
+  unfold reverse_ok. rewrite !andb_true_iff, !forallb_forall. intros [[[H1 _] H3] H4].
+  split.
+  - revert H1. generalize (map fst rv) (rev (map fst stream)). clear.
+    induction l as [|a l IH]; intros [|b l']; simpl; try discriminate; [reflexivity|].
+    rewrite andb_true_iff, Nat.eqb_eq. intros [-> H]. f_equal. now apply IH.
+  - intros x y k. split.
+    + intros [Ht Hy].
+      assert (Hf : In (x, y, k) (filter (fun tr => memn (snd (fst tr)) (map fst stream)) (edge_triples stream))).
+      { apply filter_In. split; [assumption|]. now apply memn_spec. }
+      specialize (H3 _ Hf). apply existsb_exists in H3. destruct H3 as (tr & Htr & E).
+      apply triple_eqb_spec in E. subst tr. apply in_map_iff in Htr.
+      destruct Htr as ([[a b] c] & E & Hin). simpl in E. injection E as -> -> ->. assumption.
+    + intros Ht.
+      assert (Hb : In (x, y, k) (map (fun tr => (snd (fst tr), fst (fst tr), snd tr)) (edge_triples rv))).
+      { apply in_map_iff. exists (y, x, k). split; [reflexivity|assumption]. }
+      specialize (H4 _ Hb). apply existsb_exists in H4. destruct H4 as (tr & Htr & E).
+      apply triple_eqb_spec in E. subst tr. apply filter_In in Htr. destruct Htr as [Hin Hm].
+      split; [assumption|]. now apply memn_spec in Hm.
+Qed.
+
+Lemma adapters_thm (g : graph) (W : wf g) (shown : list nat) (stream topo rv : stream_t) :
+  stream_holds g shown stream ->
+  (topo_ok stream topo = true ->
+     (forall nd, In nd topo -> In nd stream) /\ NoDup (map fst topo) /\
+     (forall x, In x (map fst stream) -> In x (map fst topo)) /\
+     forall x y, In x shown -> In y shown -> x < length g -> anc g y x -> y <> x ->
+                 posn (map fst topo) x < posn (map fst topo) y) /\
+  (reverse_ok stream rv = true ->
+     map fst rv = rev (map fst stream) /\
+     forall x y k, (In (x, y, k) (edge_triples stream) /\ In y (map fst stream)) <->
+                   In (y, x, k) (edge_triples rv)).
+Proof.
+  intros SH. split.
+  - intros TO. destruct (topo_parts g shown stream topo SH TO) as (A & B & C).
+    split; [assumption|]. split; [assumption|]. split; [assumption|].
+    exact (topo_before_ancestors g W shown stream topo SH TO).
+  - apply reverse_ok_sound.
+Qed.
